@@ -136,8 +136,10 @@ def envD {r : Nat} (T : Nat) (eb : DEnvB r) (rs : DRestruct r) : DEnv r where
   elements_PopIterate := fun g s =>
     -- `elements.PopIterate` is not a translated target: the parameter is the MODEL's (elements last to first, the
     -- slabs of external groups removed); the callback's effect is the list of popped entries
+    -- (`hkeyElements.PopIterate` leaves its receiver EMPTY: `hkeys = nil`, `elems = nil`, `size = hkeyElementsPrefixSize`)
     let q := HkeyElems.popIter (MElems.ops r) g s.ctx
-    (none, { s with ctx := q.2, popped := s.popped ++ q.1 })
+    (none, { g with hkeys := [], elems := [], size := Gen.hkeyElementsPrefixSize },
+     { s with ctx := q.2, popped := s.popped ++ q.1 })
   elements_Remove := fun g s d lvl hk w =>
     let q := eb.elements_Remove g s.ctx d lvl hk w
     (q.1, q.2.1, q.2.2.1, q.2.2.2.1, s.withCtx q.2.2.2.2)
